@@ -256,8 +256,8 @@ _ROT = [0]
 NEXTRA = 2  # concretisations besides ASCII per text expression (1 in the quick tier)
 
 
-def part_pairs(rep, rows, uni, pool, rnd, source, test_every):
-    """Part A over TLC rows; returns the sample of pairs for part B."""
+def part_pairs_chunk(rep, rows, uni, pool, rnd, source, test_every):
+    """Part A over TLC rows; returns (failures {(clause, signature): (e, v, cx, observed, source)}, sample for part B)."""
     fails = {}
     sample = []
     n = 0
@@ -278,7 +278,7 @@ def part_pairs(rep, rows, uni, pool, rnd, source, test_every):
                 n += 1
                 rep.case(
                     sample={"matcher": show_expr(e), "matchee": show_value(v), "text_as": cx.name, "spec_verdict": expected,
-                            "checked": "str(matcher), describe(), get_details(), str(MismatchError) x verbose x message"}
+                            "checked": "get_details() then describe() vs a fresh mismatch; str(MismatchError); assertThat / assert_that / expectThat texts"}
                     if nontriv and expected == "F" and rep.evaluations % 20011 == 23
                     else None,
                     nontrivial_key=sig_hash(("A", e, v, cx.name)) if expected == "F" and (texty or nontriv) else None,
@@ -286,16 +286,51 @@ def part_pairs(rep, rows, uni, pool, rnd, source, test_every):
                 if f is not None:
                     k = (f.clause, f.signature)
                     if k not in fails or len(jdump(e)) < len(jdump(fails[k][0])):
-                        fails[k] = (e, v, cx, f, source)
+                        fails[k] = (e, v, cx, f.observed, source)
                 if n % test_every == 0 and expected in ("T", "F"):
                     sample.append((e, v, cx, expected))
-    for (clause, sig), (e, v, cx, f, src) in sorted(fails.items()):
+    return fails, sample
+
+
+def _pairs_worker(args):
+    rows, uni, seed, source, test_every, nextra = args
+    global NEXTRA
+    NEXTRA = nextra
+    acc = mc.Acc()
+    pool = mc.PathPool("c07w")
+    try:
+        fails, sample = part_pairs_chunk(acc, rows, uni, pool, random.Random(seed), source, test_every)
+    finally:
+        pool.close()
+    return acc, fails, sample
+
+
+def part_pairs(rep, rows, uni, pool, rnd, source, test_every, nproc=3):
+    """Part A (in worker processes for large jobs); reports the violations, returns the sample of pairs for part B."""
+    if len(rows) < 600:
+        parts = [part_pairs_chunk(rep, rows, uni, pool, rnd, source, test_every)]
+    else:
+        out = mc.run_parallel(
+            _pairs_worker, [(c, uni, rnd.randrange(2**31), source, test_every, NEXTRA) for c in mc.split(rows, nproc)], nproc
+        )
+        parts = []
+        for acc, fails, sample in out:
+            mc.merge_acc(rep, acc)
+            parts.append((fails, sample))
+    fails = {}
+    sample = []
+    for fs, smp in parts:
+        sample += smp
+        for k, t in fs.items():
+            if k not in fails or len(jdump(t[0])) < len(jdump(fails[k][0])):
+                fails[k] = t
+    for (clause, sig), (e, v, cx, observed, src) in sorted(fails.items()):
         rep.violation(
             clause,
             sig,
             {"part": "pairs", "expr": e, "value": v, "cx": cx.name, "shown": "%s vs %s" % (show_expr(e), show_value(v)), "source": src},
             expected="no exception, a str",
-            observed=f.observed,
+            observed=observed,
         )
     return sample
 
